@@ -1,5 +1,5 @@
 """C14 - the meta-block callback's IR replays to exactly the input."""
-import json, os, shutil
+import json, os
 import vlib
 
 PROP = "C14"
@@ -12,25 +12,8 @@ DICT_TXT = os.path.join(vlib.BUILD, "ocaml", "c14", "dict.txt")
 # ----------------------------------------------------------------------------- builds
 
 def build_harness(profile="dev"):
-    """against /repo, or (mutation self-test, VERIF_REPO=<copy>) a private copy of the crate"""
-    repo = os.environ.get("VERIF_REPO")
-    if not repo or os.path.abspath(repo) == "/repo":
-        return vlib.harness_build("c14", profile)
-    src = os.path.join(vlib.ROOT, "harness")
-    dst = os.path.join(vlib.BUILD, "mut_c14", "harness")
-    os.makedirs(os.path.join(dst, "src", "bin"), exist_ok=True)
-    os.makedirs(os.path.join(dst, ".cargo"), exist_ok=True)
-    tgt = os.path.join(vlib.BUILD, "mut_c14", "target")
-    open(os.path.join(dst, "Cargo.toml"), "w").write(open(os.path.join(src, "Cargo.toml")).read().replace('path = "/repo"', 'path = "%s"' % repo))
-    open(os.path.join(dst, ".cargo", "config.toml"), "w").write('[net]\noffline = true\n[build]\ntarget-dir = "%s"\n' % tgt)
-    for f in ("lib.rs", "streamlib.rs", "dictgen.rs"):
-        shutil.copy(os.path.join(src, "src", f), os.path.join(dst, "src", f))
-    shutil.copy(os.path.join(src, "src", "bin", "c14.rs"), os.path.join(dst, "src", "bin", "c14.rs"))
-    if os.path.exists(os.path.join(src, "Cargo.lock")):
-        shutil.copy(os.path.join(src, "Cargo.lock"), os.path.join(dst, "Cargo.lock"))
-    with vlib.Lock("cargo-mut-c14"):
-        rc, out = vlib.sh("timeout 1500 cargo build --offline --bin c14 2>&1", cwd=dst, env={"RUSTFLAGS": "--cfg %s" % vlib.GUARD}, timeout=1600)
-    return rc == 0, out, os.path.join(tgt, "debug", "c14")
+    """against /repo, or (seeded-change / mutation runs, VERIF_REPO=<copy>) the private copy vlib keeps"""
+    return vlib.harness_build("c14", profile)
 
 
 def build_model(run=None):
@@ -358,6 +341,9 @@ def check(run):
             run.report("spec-violation", {"request": req, "kind": m["kind"], "quality": m.get("quality", -1), "lgwin": m.get("lgwin", -1), "dict_len": m.get("dict_len", 0)},
                        {"impl": i[:300]}, what="harness process died on this case")
             continue
+        if len(run.violations) >= 12:
+            run.note("12 violations recorded; the remaining cases of this run are not evaluated")
+            break
         evaluate(run, req, m, i, a, stats)
         _, _, v = parse_line(i)
         if int(v.get("NMB", 0)) >= 1 and int(v.get("NCOPY", 0)) + int(v.get("NDICT", 0)) >= 1:
